@@ -1,10 +1,13 @@
 package c11
 
 import (
+	"strings"
 	"testing"
+	_ "time/tzdata"
 
 	"go.lstv.dev/util/date"
 
+	"verifharness/ref"
 	"verifharness/vkit"
 )
 
@@ -19,8 +22,28 @@ var coldFirst = map[string]func(){
 	"format":                func() { _ = date.New(1, 1, 1).String() },
 }
 
+func init() {
+	// the same first calls in processes whose local zone skips a calendar day (Apia, Kiritimati) or starts summer time at midnight
+	for _, z := range []string{"Pacific/Apia", "America/Sao_Paulo", "America/Havana", "Asia/Beirut", "America/Asuncion", "Africa/Cairo", "Pacific/Kiritimati", "America/Santiago"} {
+		z := z
+		coldFirst["tz="+z+"; unmarshal valid"] = func() { var d date.Date; _ = d.UnmarshalBinary(encode(2011, 12, 30)) }
+	}
+}
+
 func TestColdStart(t *testing.T) {
 	vkit.ColdMain(t, "C11", coldFirst, func(w *vkit.W) {
+		if strings.HasPrefix(vkit.ColdScenario(), "tz=") {
+			for _, y := range []int64{1994, 2011, 2013, 2014, 2018, 2019} {
+				for m := 1; m <= 12; m++ {
+					for d := 1; d <= 31; d++ {
+						judge(Case{Kind: "bytes", Data: vkit.B(encode(y, m, d))}, w)
+						if ref.ValidYMD(y, m, d) {
+							judge(Case{Kind: "date", Y: y, M: m, D: d}, w)
+						}
+					}
+				}
+			}
+		}
 		for _, y := range []int64{-999999999, -400, -1, 0, 1, 1900, 2000, 2023, 2024, 9999, 999999999} {
 			for _, md := range [][2]int{{1, 1}, {2, 28}, {2, 29}, {2, 30}, {4, 31}, {12, 31}, {13, 1}, {0, 1}, {1, 0}, {6, 30}} {
 				judge(Case{Kind: "bytes", Data: vkit.B(encode(y, md[0], md[1]))}, w)
